@@ -489,6 +489,9 @@ pub fn run(def: &'static PropDef, tier: Tier, seed: u64) -> i32 {
             continue;
         }
         match confirm_replay(def, &f.replay, confirm_hang_limit) {
+            Confirm::Fail(sig) if sig.contains("/harness/") => {
+                undecided.push(format!("replay of {} failed inside the harness: {}", f.replay, sig));
+            }
             Confirm::Fail(sig) => {
                 seen.insert(f.sig.clone());
                 if sig == f.sig || sig.contains("/abort/") || sig.contains("/hang/") {
